@@ -47,13 +47,14 @@ func (w *c12world) installOracleHooks() {
 			return
 		}
 		sub := strings.TrimPrefix(ev.key, prefix)
+		wt.h.delivered[sub]++
 		if ev.from == sl.idx {
 			// the node's own write echoed back: not "announced by another node"
 			sl.touch[sub] = &c12touch{}
 			return
 		}
 		sl.touch[sub] = &c12touch{event: true, deleted: ev.deleted, prefix: c12recPrefix(ev.val), before: ev.before,
-			holder: ev.holder, holderRec: ev.holderRec, nodeEpoch: ev.nodeEpoch, recEpoch: c12recEpoch(ev.val), seq: ev.seq, ticks: sl.ticks, from: ev.from}
+			holder: ev.holder, holderRec: ev.holderRec, nodeEpoch: ev.nodeEpoch, recEpoch: c12recEpoch(ev.val), ctx: wt.h.watchContext(), seq: ev.seq, ticks: sl.ticks, from: ev.from}
 	}
 	w.st.onTick = func(h *c12handle) { h.slot.ticks++ }
 }
@@ -80,6 +81,11 @@ func (w *c12world) afterOp(r *c12opres, all []*c12opres) {
 	}
 	if !r.preOK {
 		c.S.Probe("storefail_skipped_disagreed_before")
+		return
+	}
+	if sl.h.delivered[r.sub] != r.preDeliv {
+		// a notification for the same subscriber was applied while the call was in flight
+		c.S.Probe("storefail_skipped_notification_during_call")
 		return
 	}
 	failed := "store"
@@ -159,7 +165,7 @@ func (w *c12world) checkWatch() {
 				continue
 			}
 			if t.deleted {
-				c.Fail("watch-applied", "watch/"+w.modeName()+"/delete-not-applied",
+				c.Fail("watch-applied", "watch/"+w.modeName()+"/delete-not-applied"+t.ctx,
 					"node n%d received delete(%s) from n%d (seq %d) but still answers %q for it", sl.idx, sub, t.from, t.seq, ans)
 				continue
 			}
@@ -168,14 +174,23 @@ func (w *c12world) checkWatch() {
 				c.S.Probe("watch_skipped_store_conflict")
 				continue
 			}
+			if w.lease && t.recEpoch+2 < t.nodeEpoch {
+				// classification only: the record's epoch (the writer's private counter) looks
+				// expired to the receiver, which drops such a record before looking at anything
+				// else, whatever the delivery order was
+				c.Fail("watch-applied", "watch/lease/put-not-applied/epoch-skew",
+					"node n%d (epoch %d) received put(%s -> %s, epoch %d) from n%d (seq %d); it answered %q before the notification and answers %q after it (store record: %q)",
+					sl.idx, t.nodeEpoch, sub, want, t.recEpoch, t.from, t.seq, t.before, ans, w.record(sub))
+				continue
+			}
 			// who held the announced prefix on this node when the notification arrived?
-			if !w.lease && t.holder != "" && t.holder != sub {
+			if t.holder != "" && t.holder != sub {
 				if t.holderRec == want || w.st.conflicted[t.holderRec] {
 					// two store records claimed the prefix: a multi-writer conflict, not C12's subject
 					c.S.Probe("watch_skipped_store_conflict")
 					continue
 				}
-				c.Fail("watch-applied", "watch/"+w.modeName()+"/put-rejected-stale-holder",
+				c.Fail("watch-applied", "watch/"+w.modeName()+"/put-rejected-stale-holder"+t.ctx,
 					"node n%d received put(%s -> %s) from n%d (seq %d) but answers %q: on arrival the prefix was held locally by %s, whose store record was %q",
 					sl.idx, sub, want, t.from, t.seq, ans, t.holder, t.holderRec)
 				continue
@@ -186,15 +201,13 @@ func (w *c12world) checkWatch() {
 				detail = "kept-previous-address"
 			case ans != "":
 				detail = "applied-other-address"
-			case w.lease && t.recEpoch+2 < t.nodeEpoch:
-				// classification only: the record's epoch (the writer's private counter) looks expired to the receiver
-				detail = "not-applied/epoch-skew"
 			case w.lease:
 				if st := sl.da.Stats(); st.Allocated >= st.Total {
 					detail = "not-applied/pool-reads-full"
 				}
 			}
-			c.Fail("watch-applied", "watch/"+w.modeName()+"/put-"+detail,
+			ctx := t.ctx
+			c.Fail("watch-applied", "watch/"+w.modeName()+"/put-"+detail+ctx,
 				"node n%d received put(%s -> %s) from n%d (seq %d); it answered %q before the notification and answers %q after it (store record: %q)",
 				sl.idx, sub, want, t.from, t.seq, t.before, ans, w.record(sub))
 		}
